@@ -1,6 +1,7 @@
 import Driver.CacheDrv
 import Driver.TableDrv
 import Driver.Lin
+import Driver.TraceProto
 import CacheVerif.Model.CacheOf
 import CacheVerif.Spec.TTL
 /-!
@@ -133,6 +134,9 @@ def main (args : List String) : IO Unit := do
   let stdin ← IO.getStdin
   let stdout ← IO.getStdout
   let stderr ← IO.getStderr
+  if args.contains "--trace-proto" then
+    Driver.traceLoop stdin stdout "" none []
+    return
   if args.contains "--lin" then
     Driver.linLoop stdin stdout {}
     return
